@@ -625,6 +625,21 @@ class RankEnv:
         core._tl.count_decomp = False
         rec['decomps'] = _decomp(self.rank) - d0
         rec['steps_after'] = pre.steps
+        if plan['method'] == 'eigen' and inputs_finite:
+            # C01: "factors taken positive semi-definite" - the eigenvalues
+            # the layers precondition with are never negative (public
+            # attributes of the eigen layer; skipped if a refactoring renames
+            # them). With pre-division receivers keep an unused, never
+            # written da: only the product is looked at there.
+            Eig = getattr(self.kfac.layers.eigen, 'KFACEigenLayer', None)
+            for layer in (find_instances(pre, Eig) if Eig else []):
+                for attr in (('dgda',) if plan['prediv'] else ('da', 'dg')):
+                    t = getattr(layer, attr, None)
+                    if isinstance(t, torch.Tensor) and t.numel() and bool(
+                            torch.isfinite(t).all()) and float(t.min()) < 0:
+                        self.bad('C01.negative_eigenvalue', what=attr,
+                                 min=float(t.min()), it=it)
+                    self.sim.probe('eigenvalue_sign_checks')
         if pre.steps != steps0 + 1:
             self.bad('C05.steps_not_incremented', before=steps0,
                      after=pre.steps)
